@@ -83,6 +83,50 @@ def finite(xs):
     return all(math.isfinite(float(v)) for v in xs)
 
 
+# ------------------------------------------------------------------------------------------
+# extreme-magnitude regime: tolerances from the conditioning of the documented formulas
+# ------------------------------------------------------------------------------------------
+UNIT = {"f32": 2.0 ** -24, "f64": 2.0 ** -53}     # unit roundoff
+
+
+def ulp(dtype, m):
+    """spacing of the floats of this dtype around magnitude m"""
+    m = abs(float(m))
+    if m == 0 or not math.isfinite(m):
+        return 0.0
+    return 2.0 ** (math.floor(math.log2(m)) - (23 if dtype == "f32" else 52))
+
+
+def _case_max_abs(tensors, scale):
+    return max([abs(i) for t in tensors for i in t["data"]] + [0]) / scale
+
+
+def offset_var_tol(case, xs, bessel, n):
+    """|std^2 - var| allowed for store() on data with a large common offset: the documented statistic is
+    var = sumsq / count - (sum / count)^2 held in float64 buffers.  With exact sums (dyadic data) the roundings are
+    fl(sum/count) [u], its square [2u + u], fl(sumsq/count) [u], each relative to M^2 = max x^2  ->  4 u64 M^2 (a worst-case
+    bound: cancellation makes the error absolute in M^2, not relative to var), times count/(count-1) under Bessel."""
+    M = _case_max_abs(xs, case["scale"])
+    t = 4.04 * UNIT["f64"] * M * M
+    if bessel and n > 1:
+        t *= n / (n - 1)
+    return t + 1e-15
+
+
+def norm_cond_tol(dtype, means, dens, own_mean, ymax):
+    """|y - (x - mean)/max(std, eps)| allowed: the subtrahend is `mean.to(x.dtype)` (half an ulp of the input dtype at |mean|
+    when the mean is the tensor's own float64 mean; a handed mean is on the grid, hence exact), two ulps of float64 for the
+    float64 mean itself, divided by the denominator; plus three roundings (std.to, clamp, divide) relative to |y|."""
+    worst = 0.0
+    for m, d in zip(means, dens):
+        dm = 2 * ulp("f64", m) if own_mean else 0.0
+        if own_mean and dtype == "f32":
+            dm += 0.5 * ulp("f32", m)
+        if d > 0:
+            worst = max(worst, dm / d)
+    return Fraction(worst * 1.01) + Fraction(3 * UNIT[dtype] + 1e-13) * Fraction(max(1.0, ymax))
+
+
 def impl_tensor(y):
     return {"shape": list(y.shape), "data": [float(v) for v in y.detach().double().flatten().tolist()]}
 
@@ -205,6 +249,8 @@ def ops_term(case, out):
         return "false"
     loose = case.get("offgrid") and case["dtype"] == "f32"   # float32 sums of off-grid data carry ~1e-8 of rounding
     tol = cq(Fraction(1, 10**5) if loose else TOL64)
+    if case.get("offset"):
+        tol = cq(Fraction(_ops_offset_tol(case)))
     stores = cl([_lit_store(s) for s in out["stores"]])
     if out["final"][0] == "err":
         final = lit_err(out["final"][1])
@@ -225,17 +271,83 @@ def ops_term(case, out):
                 return "false"
             parts.append(
                 f"check_norm {lit_case_tensor(op['x'], case['scale'], DT[case['dtype']])} {cz(case['dim'])} (Some {lit_qs(fr_list(last[1]))}) "
-                f"(Some {lit_qs(fr_list(last[2]))}) {cq(Fraction(case['eps']))} [] {cq(_fwd_tol(case, f))} {lit_res_tensor(f)}")
+                f"(Some {lit_qs(fr_list(last[2]))}) {cq(Fraction(case['eps']))} [] {cq(_fwd_tol(case, f, last))} {lit_res_tensor(f)}")
     return "(" + " && ".join(parts) + ")"
 
 
-def _fwd_tol(case, f):
+def _fwd_tol(case, f, last=None):
     """tolerance for one normalised tensor, relative to its largest entry"""
     mx = 1.0
     if f[0] == "ok" and f[1]["data"] and finite(f[1]["data"]):
         mx = max(mx, max(abs(v) for v in f[1]["data"]))
+    if case.get("offset") and last is not None:
+        # the float64 statistics are converted to the input dtype before use: conditioning of (x - mean) / max(std, eps)
+        return norm_cond_tol(case["dtype"], last[1], [max(s, case["eps"]) for s in last[2]], True, mx)
     base = TOL32 if case["dtype"] == "f32" else TOL64
     return base * Fraction(mx)
+
+
+def _ops_offset_tol(case):
+    """one tolerance for every store of an offset history (check_ops takes a single one): the largest per-store bound"""
+    h = _history(case)
+    t = 1e-9
+    for live, bessel, ok in (h[0] if h else []):
+        if ok:
+            t = max(t, offset_var_tol(case, live, bessel, sum(_frames_of(x, case["dim"]) for x in live)))
+    return t
+
+
+def _pooled(case, live):
+    """per coefficient: the exact pooled values (Fractions) of the tensors in `live` along case['dim']"""
+    cols = None
+    for x in live:
+        t = torch.tensor(x["data"], dtype=torch.long).reshape(x["shape"]).movedim(case["dim"], -1)
+        rows = t.reshape(-1, t.shape[-1]).tolist()
+        if cols is None:
+            cols = [[] for _ in range(t.shape[-1])]
+        for r in rows:
+            for i, v in enumerate(r):
+                cols[i].append(Fraction(v, case["scale"]))
+    return cols or []
+
+
+def ops_offset_relation(case, out):
+    """Extreme-magnitude regime, judged in exact rational arithmetic on the implementation's outputs alone: every store's
+    mean within one float64 rounding of the pooled mean, std^2 within the conditioning bound of the float64
+    sufficient-statistics formula (offset_var_tol) of the pooled biased/Bessel variance, and the float64 buffers EQUAL to the
+    exact pooled count / sum / sum of squares (all representable)."""
+    h = _history(case)
+    if h is None or out["final"][0] != "ok" or len(h[0]) != len(out["stores"]):
+        return None
+    for k, ((live, bessel, must_ok), st) in enumerate(zip(h[0], out["stores"])):
+        if not must_ok or st[0] != "ok":
+            continue
+        for i, col in enumerate(_pooled(case, live)):
+            n = len(col)
+            mu = sum(col) / n
+            var = sum((v - mu) ** 2 for v in col) / (n - 1 if bessel else n)
+            tv = offset_var_tol(case, live, bessel, n) + 4 * UNIT["f64"] * float(var)
+            got_m, got_v = Fraction(st[1][i]), Fraction(st[2][i]) ** 2
+            if abs(got_m - mu) > Fraction(1.01 * UNIT["f64"]) * abs(mu) + Fraction(1, 10 ** 300):
+                return {"what": "store(): mean differs from the pooled mean by more than one float64 rounding",
+                        "store": k, "coefficient": i, "got": st[1][i], "expected": float(mu)}
+            if abs(got_v - var) > Fraction(tv):
+                return {"what": "store(): std^2 differs from the pooled %s variance by more than the conditioning bound "
+                                "4 u64 max|x|^2 of sumsq/count - mean^2 in float64" % ("Bessel" if bessel else "biased"),
+                        "store": k, "coefficient": i, "got_std": st[2][i], "expected_std": math.sqrt(float(var)),
+                        "abs_error_in_variance": float(abs(got_v - var)), "bound": tv, "frames": n,
+                        "input_dtype": case["dtype"]}
+    if out["final"][1] is not None and h[1]:
+        c, sm, sq = out["final"][1]
+        cols = _pooled(case, h[1])
+        if cols and Fraction(c) != len(cols[0]):
+            return {"what": "count buffer differs from the number of pooled frames", "got": c}
+        for i, col in enumerate(cols):
+            if Fraction(sm[i]) != sum(col) or Fraction(sq[i]) != sum(v * v for v in col):
+                return {"what": "float64 sum / sumsq buffers differ from the exact pooled sums (which are representable)",
+                        "coefficient": i, "got": [sm[i], sq[i]], "expected": [float(sum(col)), float(sum(v * v for v in col))],
+                        "input_dtype": case["dtype"]}
+    return None
 
 
 def _frames_of(x, dim):
@@ -284,6 +396,8 @@ def ops_spec_term(case, out):
     dt = DT[case["dtype"]]
     loose = case.get("offgrid") and case["dtype"] == "f32"
     tol = cq(Fraction(1, 10**5) if loose else TOL64)
+    if case.get("offset"):
+        tol = cq(Fraction(_ops_offset_tol(case)))
     tola = cq((Fraction(1, 10**5) if loose else TOL64) if case.get("offgrid") else Fraction(0))
     parts = []
     for (live, bessel, must_ok), st in zip(h[0], out["stores"]):
@@ -310,7 +424,7 @@ def ops_spec_term(case, out):
             continue
         parts.append(f"spec_norm_formula_okb {lit_case_tensor(op['x'], case['scale'], dt)} {cz(case['dim'])} "
                      f"{lit_qs(fr_list(last[-1][1]))} {lit_qs(fr_list(last[-1][2]))} {cq(Fraction(case['eps']))} "
-                     f"{cq(_fwd_tol(case, f))} {lit_impl_tensor(f[1])}")
+                     f"{cq(_fwd_tol(case, f, last[-1]))} {lit_impl_tensor(f[1])}")
     return "(" + " && ".join(parts or ["true"]) + ")"
 
 
@@ -376,7 +490,10 @@ def ops_metamorphic(case, out, rng_seed):
             mu = Y[:, i].mean().item()
             var = Y[:, i].var(unbiased=False).item()
             want = (n - 1) / n if bessel else 1.0
-            if abs(mu) > 1e-7 or abs(var - want) > 1e-7:
+            thr = 1e-7
+            if case.get("offset"):   # std^2 is only known to the conditioning bound of the statistic
+                thr += 2 * _ops_offset_tol(case) / pvar[i].item()
+            if abs(mu) > thr or abs(var - want) > thr:
                 return {"what": "normalised pooled data do not have zero mean / unit variance",
                         "coefficient": i, "mean": mu, "var": var, "expected_var": want}
     return None
@@ -389,7 +506,7 @@ def run_norm(case):
     from pydrobert.torch.functional import mean_var_norm
     from pydrobert.torch.modules import MeanVarianceNormalization
 
-    x = mk(case["x"], case["scale"], torch.float64)
+    x = mk(case["x"], case["scale"], DT[case.get("dtype", "f64")])
     mean = None if case["mean"] is None else torch.tensor([v / case["scale"] for v in case["mean"]], dtype=torch.float64)
     std = None if case["std"] is None else torch.tensor([v / case["scale"] for v in case["std"]], dtype=torch.float64)
     try:
@@ -419,7 +536,24 @@ def norm_sigma(case):
         rows = rows - torch.tensor([v / case["scale"] for v in case["mean"]], dtype=torch.float64).unsqueeze(1)
     if rows.shape[1] == 0:
         return [0.0] * X
+    if case.get("offset"):
+        # the variance does not move under a common shift: remove the first sample of each coefficient (exact on the grid)
+        # so that the oracle itself is well conditioned (relative error ~1e-16 instead of ~1e-16 (M / sigma)^2)
+        rows = rows - rows[:, :1]
     return [float(v) for v in rows.std(1, unbiased=False).tolist()]
+
+
+def _norm_offset_tol(case, out):
+    """conditioning bound of (x - mean) / max(std, eps) for the extreme-magnitude stream"""
+    ymax = 1.0
+    if out[0] == "ok" and out[1]["data"] and finite(out[1]["data"]):
+        ymax = max(1.0, max(abs(v) for v in out[1]["data"]))
+    x = mk(case["x"], case["scale"], torch.float64)
+    X = x.shape[case["dim"]]
+    rows = x.movedim(case["dim"], 0).reshape(X, -1)
+    means = [v / case["scale"] for v in case["mean"]] if case["mean"] is not None else rows.mean(1).tolist()
+    sig = [v / case["scale"] for v in case["std"]] if case["std"] is not None else norm_sigma(case)
+    return norm_cond_tol(case.get("dtype", "f64"), means, [max(s, case["eps"]) for s in sig], case["mean"] is None, ymax)
 
 
 def _lit_opt_ints(v, scale):
@@ -433,6 +567,8 @@ def norm_term(case, out):
     if out[0] == "ok" and out[1]["data"]:
         mx = max(1.0, max(abs(v) for v in out[1]["data"]))
     tol = TOL64 * Fraction(mx)
+    if case.get("offset"):
+        tol = _norm_offset_tol(case, out)
     return (f"check_norm {lit_case_tensor(case['x'], case['scale'])} {cz(case['dim'])} {_lit_opt_ints(case['mean'], case['scale'])} "
             f"{_lit_opt_ints(case['std'], case['scale'])} {cq(Fraction(case['eps']))} {lit_qs(fr_list(norm_sigma(case)))} "
             f"{cq(tol)} {lit_res_tensor(out)}")
@@ -446,12 +582,16 @@ def norm_spec_term(case, out):
         mx = max([1.0] + [abs(v) for v in out[1]["data"]])
         return (f"spec_norm_formula_okb {lit_case_tensor(case['x'], case['scale'])} {cz(case['dim'])} "
                 f"{lit_qs([Fraction(i, case['scale']) for i in case['mean']])} {lit_qs([Fraction(i, case['scale']) for i in case['std']])} "
-                f"{cq(Fraction(case['eps']))} {cq(TOL64 * Fraction(mx))} {lit_impl_tensor(out[1])}")
+                f"{cq(Fraction(case['eps']))} {cq(_norm_offset_tol(case, out) if case.get('offset') else TOL64 * Fraction(mx))} "
+                f"{lit_impl_tensor(out[1])}")
     if case["mean"] is not None or case["std"] is not None:
         return None
     sig = norm_sigma(case)
     degenerate = cl([cb(s < max(case["eps"], 1e-6)) for s in sig])
-    return (f"spec_normalised_okb {cz(case['dim'])} [{lit_impl_tensor(out[1])}] {cn(len(sig))} {cq(Fraction(1, 10**7))} {degenerate}")
+    tol = Fraction(1, 10**7)
+    if case.get("offset"):   # zero mean / unit variance of an output that is itself only known to the conditioning bound
+        tol = max(tol, 4 * _norm_offset_tol(case, out) * Fraction(max([1.0] + [abs(v) for v in out[1]["data"]])))
+    return (f"spec_normalised_okb {cz(case['dim'])} [{lit_impl_tensor(out[1])}] {cn(len(sig))} {cq(tol)} {degenerate}")
 
 
 # ------------------------------------------------------------------------------------------
@@ -530,7 +670,7 @@ def run_return(case):
     from pydrobert.torch.functional import time_distributed_return
     from pydrobert.torch.modules import TimeDistributedReturn
 
-    r = mk(case["r"], case["scale"], torch.float64)
+    r = mk(case["r"], case["scale"], DT[case.get("dtype", "f64")])
     g = _gamma(case)
     try:
         if case["via"] == "module":
@@ -542,8 +682,39 @@ def run_return(case):
         return ("err", exc_kind(e))
 
 
+def _return_abs_scale(case):
+    """per position (t, n): S_t = sum_{t' >= t} |gamma|^(t'-t) |r_t'| -- the quantity every rounding of the discounted
+    sum is relative to; returned as a flat list in the layout of r (None when r is not a matrix)"""
+    sh = case["r"]["shape"]
+    if len(sh) != 2:
+        return None
+    T, N = (sh[1], sh[0]) if case["bf"] else (sh[0], sh[1])
+    g = abs(_gamma(case))
+    data = [abs(i) / case["scale"] for i in case["r"]["data"]]
+    S = [0.0] * (T * N)
+    for n in range(N):
+        acc = 0.0
+        for t in range(T - 1, -1, -1):
+            k = n * T + t if case["bf"] else t * N + n
+            acc = data[k] + g * acc
+            S[k] = acc
+    return S, T
+
+
+def _return_f32_bound(case):
+    """float32: R_t is a dot product of powers gamma^k (gamma rounded to float32: k u32; pow: 2 ulp) with the rewards,
+    accumulated in float32 (T u32): |error| <= (2T + 8) u32 S_t; one number for the tensor = the largest S_t"""
+    st = _return_abs_scale(case)
+    if st is None or not st[0]:
+        return 0.0
+    S, T = st
+    return (2 * T + 8) * UNIT["f32"] * max(S) * 1.01 + 1e-30
+
+
 def return_tol(case, out):
     g = _gamma(case)
+    if case.get("dtype", "f64") == "f32":
+        return Fraction(_return_f32_bound(case))
     if case.get("exact"):
         return Fraction(0)
     mx = 1.0
@@ -579,6 +750,8 @@ def return_python_spec(case, out):
     def at(t, n):
         return data[n * T + t] if case["bf"] else data[t * N + n]
 
+    f32 = case.get("dtype", "f64") == "f32"
+    S = _return_abs_scale(case)[0] if f32 else None
     if out[1]["shape"] != sh:
         return {"what": "return has the wrong shape", "shape": out[1]["shape"]}
     if not finite(out[1]["data"]):
@@ -591,7 +764,12 @@ def return_python_spec(case, out):
             R = at(t, n) + g * R
             got = out[1]["data"][n * T + t] if case["bf"] else out[1]["data"][t * N + n]
             want = float(R)
-            if abs(got - want) > 1e-9 * max(1.0, abs(want)):
+            if f32:
+                k = n * T + t if case["bf"] else t * N + n
+                bad = abs(got - want) > (2 * T + 8) * UNIT["f32"] * 1.01 * S[k] + 1e-30
+            else:
+                bad = abs(got - want) > 1e-9 * max(1.0, abs(want))
+            if bad:
                 return {"what": "R_t differs from r_t + gamma * R_(t+1)", "t": t, "n": n, "got": got, "expected": want}
     return None
 
@@ -997,6 +1175,76 @@ def gen_return_long(rng, thorough):
     return cases
 
 
+# ---- extreme-magnitude regime -------------------------------------------------------------------------------------
+def _offsets(rng, X, scale):
+    """per coefficient: a common offset of magnitude 1e3..1e4 (either sign), on the grid 1/scale"""
+    return [rng.choice([1, 1, -1]) * (rng.choice([rng.randint(1000, 2000), rng.randint(2000, 10000), 8191, 8192, 10000]) * scale
+                                      + rng.randrange(scale)) for _ in range(X)]
+
+
+def _offset_tensor(rng, shape, dim, offs, scale):
+    """unit spread around the offsets: ints/scale with |deviation| <= 2"""
+    t = torch.zeros(shape, dtype=torch.long)
+    v = t.movedim(dim, -1)
+    for idx in itertools.product(*[range(n) for n in v.shape]):
+        v[idx] = offs[idx[-1]] + rng.randint(-2 * scale, 2 * scale)
+    return {"shape": list(shape), "data": [int(x) for x in t.flatten().tolist()]}
+
+
+def gen_norm_offset(rng):
+    """mean_var_norm on features with a large common offset, float64 and float32 (every value is exactly representable in
+    both: |int| < 2^24); tolerance = conditioning of (x - mean) / max(std, eps), see norm_cond_tol"""
+    D = rng.choice([2, 2, 3])
+    shape = [rng.choice([2, 3, 4, 5]) for _ in range(D)]
+    dim = rng.randint(-D, D - 1)
+    X = shape[dim]
+    scale = rng.choice([1, 4, 8])
+    offs = _offsets(rng, X, scale)
+    x = _offset_tensor(rng, shape, dim, offs, scale)
+    mean = [o + rng.randint(-scale, scale) for o in offs] if rng.random() < 0.35 else None
+    std = [rng.choice([1, 2, 3, 5, 8]) * rng.choice([1, scale]) for _ in range(X)] if rng.random() < 0.3 else None
+    return dict(kind="norm", x=x, scale=scale, dim=dim, mean=mean, std=std, eps=rng.choice([TINY, 1e-5, 0.5]),
+                via=rng.choice(["module", "function"]), dtype=rng.choice(["f64", "f32"]), offset=True, stream="offset")
+
+
+def gen_ops_offset(rng, dtype):
+    """accumulate / store on features with a large common offset.  Sums and sums of squares of the dyadic data are exactly
+    representable in the float64 buffers; store() is judged with the conditioning bound offset_var_tol."""
+    dim = rng.choice([-1, -1, 0, 1])
+    X = rng.choice([1, 2, 3])
+    scale = rng.choice([1, 4, 8])
+    offs = _offsets(rng, X, scale)
+    nd_min = dim + 1 if dim >= 0 else -dim
+    ops = []
+    for _ in range(rng.choice([1, 2, 3])):
+        D = max(nd_min, rng.choice([2, 2, 3]))
+        shape = [rng.choice([2, 3, 4, 6]) for _ in range(D)]
+        shape[dim] = X
+        ops.append({"op": "acc", "x": _offset_tensor(rng, shape, dim, offs, scale)})
+        if rng.random() < 0.25:
+            ops.append({"op": "store", "delete": False, "bessel": rng.random() < 0.5})
+    ops.append({"op": "store", "delete": rng.random() < 0.5, "bessel": rng.random() < 0.5})
+    return dict(kind="ops", dim=dim, scale=scale, dtype=dtype, eps=rng.choice([TINY, 1e-5]), offset=True, ops=ops,
+                stream="offset")
+
+
+def gen_return_f32(rng, thorough):
+    """float32 rewards: random short horizons (every gamma of the float64 stream) and long horizons whose true returns stay
+    far below the float32 range; judged with the dot-product bound _return_f32_bound and policed for non-finite values"""
+    cases = []
+    for _ in range(40 * (8 if thorough else 1)):
+        c = gen_return_random(rng)
+        c.update(dtype="f32", stream="float32")
+        cases.append(c)
+    combos = [(0.5, 150), (0.5, 400), (0.9, 1100), (1.0, 400), (0.25, 200), (1.5, 150), (3.0, 60), (-0.5, 300), (0.99, 700)]
+    for i, (g, T) in enumerate(combos):
+        for bf in ((False, True) if thorough else (bool(i % 2),)):
+            shape = [2, T] if bf else [T, 2]
+            cases.append(dict(kind="return", r=rand_tensor(rng, shape, -3, 3), scale=1, gamma=g, bf=bf, exact=False,
+                              python_only=True, via="function", dtype="f32", stream="float32"))
+    return cases
+
+
 def gen_cmd_random(rng, malformed=False):
     dim = rng.choice([-1, -1, 0, 1, -2])
     X = rng.choice([1, 2, 3])
@@ -1081,6 +1329,15 @@ def gen_cases(chk):
         cases.append(gen_cmd_random(rng))
     for _ in range(14 * mult):
         cases.append(gen_cmd_random(rng, malformed=True))
+    # extreme-magnitude regime (drawn after every older stream, so those keep their cases for a given seed)
+    emult = 8 if th else 1
+    for _ in range(45 * emult):
+        cases.append(gen_norm_offset(rng))
+    for _ in range(30 * emult):
+        cases.append(gen_ops_offset(rng, "f64"))
+    for _ in range(8 * emult):
+        cases.append(gen_ops_offset(rng, "f32"))
+    cases += gen_return_f32(rng, th)
     return cases
 
 
@@ -1196,6 +1453,13 @@ def run(chk, cases=None):
             terms.append("true")  # reported directly below
             recs.append((idx, {"what": nf + " (the exact-arithmetic value is finite)", "signature_kind": _nf_signature(c, out)}))
             continue
+        if c["kind"] == "ops" and c.get("offset"):
+            rel = ops_offset_relation(c, out)
+            if rel:
+                terms.append("true")  # reported directly below, with its own signature
+                rel["signature_kind"] = "offset-statistics-" + c["dtype"]
+                recs.append((idx, rel))
+                continue
         terms.append(model_term(c, out))
         mm = None
         try:
